@@ -10,6 +10,7 @@ import (
 	"crypto/x509"
 	"errors"
 	"fmt"
+	"io"
 	"math/big"
 	"net/http"
 	"net/url"
@@ -29,14 +30,14 @@ import (
 // a small fixed PKI for revocation cases
 
 type revoPKI struct {
-	root      *Issued // self-signed CA (certSign|cRLSign)
-	inter     *Issued // intermediate CA issued by root
+	root           *Issued // self-signed CA (certSign|cRLSign)
+	inter          *Issued // intermediate CA issued by root
 	interNoCRLSign *Issued // intermediate CA without cRLSign
-	other     *Issued // unrelated self-signed CA
-	delegate  *Issued // issued by <issuer>, EKU OCSPSigning       (per issuer, see delegates)
-	mu        sync.Mutex
-	leaves    map[string]*Issued
-	delegates map[string]*Issued
+	other          *Issued // unrelated self-signed CA
+	delegate       *Issued // issued by <issuer>, EKU OCSPSigning       (per issuer, see delegates)
+	mu             sync.Mutex
+	leaves         map[string]*Issued
+	delegates      map[string]*Issued
 }
 
 func newRevoPKI(rsaIssuer bool) *revoPKI {
@@ -417,7 +418,7 @@ var crlAlphabet = []string{
 	"delta-n6-i4", "delta-n6-i5", "delta-n6-i6", "delta-n6-i7", "delta-n7-i5", "delta-n7-i6", "delta-n7-i7", "delta-n8-i6", "delta-n9-i8",
 	"delta-bad-indicator", "delta-wrong-signer", "delta-expired", "delta-no-nextupdate", "delta-crit-unknown-ext", "delta-lists-cert", "base-lists-delta-removes",
 	"base-no-number-delta", "delta-no-number", "both-no-number", "base-no-number",
-	"fetch-error", "entry-crit-ext", "entry-crit-ext-other-serial", "hold", "hold-then-remove",
+	"fetch-error", "fetch-error-timeout", "fetch-error-deadline", "fetch-error-canceled", "fetch-error-cache-miss", "fetch-error-eof", "entry-crit-ext", "entry-crit-ext-other-serial", "hold", "hold-then-remove",
 }
 
 var crlCore = []string{"clean", "lists-cert", "wrong-signer", "expired", "no-nextupdate", "crit-unknown-ext", "delta-ok", "delta-n5-i4", "delta-n7-i6", "delta-lists-cert", "fetch-error", "entry-crit-ext"}
@@ -437,7 +438,9 @@ func (c *crlCtx) behaviour(label string) *fetchBehaviour {
 		return &CRLSpec{Number: big.NewInt(6), ThisUpdate: c.now.Add(-time.Hour), NextUpdate: c.now.Add(time.Hour), Indicator: big.NewInt(5)}
 	}
 	serial := c.leaf.Cert.SerialNumber
-	entry := func(reason int, rev time.Time) EntrySpec { return EntrySpec{Serial: serial, Reason: reason, RevTime: rev} }
+	entry := func(reason int, rev time.Time) EntrySpec {
+		return EntrySpec{Serial: serial, Reason: reason, RevTime: rev}
+	}
 	switch label {
 	case "clean":
 	case "lists-cert":
@@ -515,6 +518,17 @@ func (c *crlCtx) behaviour(label string) *fetchBehaviour {
 		base.Number = nil
 	case "fetch-error":
 		return &fetchBehaviour{err: errors.New("scripted fetch failure")}
+	case "fetch-error-timeout":
+		// the kinds of error a fetcher may well return: none of them is evidence of anything
+		return &fetchBehaviour{err: fmt.Errorf("download: %w", timeoutErr{})}
+	case "fetch-error-deadline":
+		return &fetchBehaviour{err: fmt.Errorf("download: %w", context.DeadlineExceeded)}
+	case "fetch-error-canceled":
+		return &fetchBehaviour{err: fmt.Errorf("download: %w", context.Canceled)}
+	case "fetch-error-cache-miss":
+		return &fetchBehaviour{err: fmt.Errorf("lookup: %w", corecrl.ErrCacheMiss)}
+	case "fetch-error-eof":
+		return &fetchBehaviour{err: io.EOF}
 	case "entry-crit-ext":
 		e := entry(1, c.now.Add(-2*time.Hour))
 		e.CritUnknown = true
@@ -611,28 +625,28 @@ func canonCertResult(r *result.CertRevocationResult) map[string]any {
 // a chain under test: every non-root certificate may name responders and distribution points
 
 type levelSpec struct {
-	ocspURLs []string
-	ocspBeh  []string // per URL (ignored for URLs that are not http)
-	crlURLs  []string
-	crlBeh   []string
-	crlCustom func(k *crlCtx, i int) *fetchBehaviour // overrides crlBeh[i] when it returns non-nil
-	freshest bool
+	ocspURLs    []string
+	ocspBeh     []string // per URL (ignored for URLs that are not http)
+	crlURLs     []string
+	crlBeh      []string
+	crlCustom   func(k *crlCtx, i int) *fetchBehaviour // overrides crlBeh[i] when it returns non-nil
+	freshest    bool
 	serialBytes int
 }
 
 type chainCase struct {
-	label   string
-	levels  []levelSpec // non-root certificates, leaf first; the root is appended
-	rsaCA   bool
-	noCRLSign bool // the issuer of the leaf lacks cRLSign
-	stZero  bool
-	mode    string // "full" (ValidateContext) or "ocsp" (ocsp.CheckStatus)
-	purposeTS bool
-	breakChain string // "", "empty", "bad-leaf-ku", "swap", "wrong-purpose"
-	tags    []string
-	deprecatedValidate bool // use Revocation.Validate (deprecated API) instead of ValidateContext
-	realFetcher bool // CRLs served over the scripted transport through the real HTTPFetcher
-	cancel string // "", "before" (context cancelled before the call), "during" (cancelled when the first request arrives), "after"
+	label              string
+	levels             []levelSpec // non-root certificates, leaf first; the root is appended
+	rsaCA              bool
+	noCRLSign          bool // the issuer of the leaf lacks cRLSign
+	stZero             bool
+	mode               string // "full" (ValidateContext) or "ocsp" (ocsp.CheckStatus)
+	purposeTS          bool
+	breakChain         string // "", "empty", "bad-leaf-ku", "swap", "wrong-purpose"
+	tags               []string
+	deprecatedValidate bool   // use Revocation.Validate (deprecated API) instead of ValidateContext
+	realFetcher        bool   // CRLs served over the scripted transport through the real HTTPFetcher
+	cancel             string // "", "before" (context cancelled before the call), "during" (cancelled when the first request arrives), "after"
 }
 
 var (
